@@ -20,7 +20,7 @@ LEVEL = 'exploration'
 RULE = ('every block of the menu product (2 variables: 42 right-hand sides each; 3 variables: reduced menu) x dress '
         '{plain, lag + exogenous + decorative chain + alias + initial condition} x configurations {reduction on/off} x '
         '{tolerances} x {iteration caps}; divergence family (overflow within / after the damping threshold, in period 1 or '
-        'switched on in a later period), transient-error family, non-linear and user-function family; oracle on normal '
+        'switched on in a later period), transient-error family, non-linear and user-function family, re-use of one solver for a second system with the same variable names; oracle on normal '
         'return: finite numbers, lag/exogenous/derived-only exact (==), residual of simultaneous equations <= 2B (B from the stop '
         'test and the finite-difference Jacobian); non-trivial = blocks that returned normally with a genuinely simultaneous core')
 ASSUMPTIONS = [
@@ -85,9 +85,34 @@ SPECIAL = [
 ]
 
 
+# the same solver object is given a second system with the same variable names (a parameter sweep)
+SWEEP = [
+    Block([('C', 'a1*YD + 1.'), ('YD', '.5*C + G'), ('a1', '0.6'), ('d', 'C - YD')], exos=[('G', '[10., 10., 12., 12.]')], maxtime=3),
+    Block([('C', 'a1*YD + 2.'), ('YD', '.25*C + G'), ('a1', '0.8'), ('d', 'C + YD')], exos=[('G', '[10., 11., 12., 13.]')], maxtime=3),
+    Block([('C', '.5*C + YD'), ('YD', 'G - 1.'), ('d', '2*C')], exos=[('G', '[5., 6., 7., 8.]')], lags=[('LAG_C', 'C')], maxtime=3),
+]
+
+
+def run_sweep(i, j, red, tol, cap):
+    a, b2 = SWEEP[i], SWEEP[j]
+    case = {'label': 'sweep', 'first': i, 'second': j, 'reduction': red, 'tol': tol, 'cap': cap}
+    A = Block.from_json(a.as_json()); A.tol = tol
+    B = Block.from_json(b2.as_json()); B.tol = tol
+    try:
+        s = EquationSolver(A.text(), run_equation_reduction=red)
+        s.MaxIterations = cap
+        s.SolveEquation()
+        s.ParseString(B.text())
+        s.SolveEquation()
+    except Exception as e:
+        return 'raised:' + type(e).__name__, [], 0, False
+    viols, indet, sim = judge(B, s.TimeSeries, red, tol, case)
+    return ('returned-ok' if not viols else 'returned-violation'), viols, indet, sim
+
+
 def units(tier):
     b = BOUNDS[tier]
-    out = []
+    out = [{'kind': 'sweep', 'tols': b['tolerances']}]
     cfgs = [(red, tol, cap) for red in (True, False) for tol in b['tolerances'] for cap in b['caps']]
     m0 = rhs_menu(0, 2, COEFS, CONSTS)
     for i0 in range(len(m0)):
@@ -254,6 +279,20 @@ def run_unit(unit, tier):
                 res['violations'].extend(viols[:2])
         if cases:
             res['samples'] = [{'block': dress(cases[-1][1], cases[-1][2], unit['horizon'], '1e-4').text()}]
+    elif unit['kind'] == 'sweep':
+        for i in range(len(SWEEP)):
+            for j in range(len(SWEEP)):
+                for red in (True, False):
+                    for tol in unit['tols']:
+                        dig.add(('sweep', i, j, red, tol))
+                        outcome, viols, indet, sim = run_sweep(i, j, red, tol, 400)
+                        res['evaluations'] += 1
+                        if outcome.startswith('returned'):
+                            res['nontrivial'] += 1
+                        res['indeterminate'] += indet
+                        core.bump(res['outcomes'], 'sweep:' + outcome)
+                        res['violations'].extend(viols[:2])
+        res['samples'] = [{'history': 'solve block A, then ParseString(block B with the same variable names) on the same solver and solve', 'B': SWEEP[1].text()}]
     else:
         label, blk = SPECIAL[unit['index']]
         funcs = 'userfunc' in label
@@ -276,5 +315,7 @@ def run_unit(unit, tier):
 
 
 def replay(case):
+    if case.get('label') == 'sweep':
+        return run_sweep(case['first'], case['second'], case['reduction'], case['tol'], case['cap'])[1][:1]
     blk = Block.from_json(case['block'])
     return run_case(case['label'], blk, case['reduction'], case['tol'], case['cap'], case.get('funcs', False))[1][:1]
